@@ -2197,6 +2197,101 @@ private theorem column_update (n : String) (fr : Spec.Frames) (o : Ops) (h : ops
       exact this
     · simp [hli, namesOf]
 
+/-! ### The order of `counter-set` and `counter-increment` -/
+
+/-- What `touch g · n` does to the column of `n`: the innermost instance is modified, or one is created in the
+innermost frame. -/
+private def cmodify (g : Int → Int) : List (Option Int) → Option (List (Option Int))
+  | [] => none
+  | some v :: rest => some (some (g v) :: rest)
+  | none :: rest => (cmodify g rest).map (none :: ·)
+
+private def ctouch (g : Int → Int) (col : List (Option Int)) : List (Option Int) :=
+  match cmodify g col with
+  | some c => c
+  | none => match col with
+    | [] => []
+    | _ :: rest => some (g 0) :: rest
+
+private theorem column_modifyInner_same (g : Int → Int) (n : String) : ∀ fr : Spec.Frames,
+    (Spec.modifyInner g n fr).map (column n) = cmodify g (column n fr) := by
+  intro fr
+  induction fr with
+  | nil => rfl
+  | cons f rest ih =>
+    cases hl : Spec.flookup f n with
+    | some y => simp [Spec.modifyInner, hl, column, cmodify, flookup_fmodify_same]
+    | none =>
+      simp only [Spec.modifyInner, hl, column, List.map_cons, cmodify]
+      rw [← show (Spec.modifyInner g n rest).map (column n) = cmodify g (rest.map (Spec.flookup · n)) from ih]
+      cases Spec.modifyInner g n rest <;> simp [column, hl]
+
+private theorem column_touch_same (g : Int → Int) (n : String) (fr : Spec.Frames) :
+    column n (Spec.touch g fr n) = ctouch g (column n fr) := by
+  cases fr with
+  | nil => rfl
+  | cons f rest =>
+    have h := column_modifyInner_same g n (f :: rest)
+    unfold ctouch
+    cases hm : Spec.modifyInner g n (f :: rest) with
+    | some fr' =>
+      rw [hm] at h
+      simp only [Option.map_some] at h
+      simp only [Spec.touch, hm, ← h]
+    | none =>
+      rw [hm] at h
+      simp only [Option.map_none] at h
+      simp only [Spec.touch, hm, ← h]
+      have hf : Spec.flookup f n = none := by
+        cases hl : Spec.flookup f n with
+        | none => rfl
+        | some y => simp [Spec.modifyInner, hl] at hm
+      simp [column, flookup_append, hf]
+
+/-- A fold of touches acts on the column of `n` as a function of that column alone. -/
+private theorem column_fold_congr (n : String) (G : Int → Int → Int) : ∀ (l : List (String × Int)) (a b : Spec.Frames),
+    column n a = column n b →
+    column n (Spec.foldPairs (fun s k v => Spec.touch (G v) s k) l a) =
+      column n (Spec.foldPairs (fun s k v => Spec.touch (G v) s k) l b) := by
+  intro l
+  induction l with
+  | nil => intro a b h; exact h
+  | cons x xs ih =>
+    intro a b h
+    obtain ⟨k, v⟩ := x
+    simp only [Spec.foldPairs]
+    apply ih
+    by_cases hk : n = k
+    · subst hk
+      rw [column_touch_same, column_touch_same, h]
+    · rw [column_touch _ n k a hk, column_touch _ n k b hk, h]
+
+/-- **C15.update_order_partial** — the order `update_counters` uses (reset, **set, increment**) and the order of
+css-lists-3 §4.5 (reset, **increment, set**) give every counter the same instances and values, except a counter
+that the element both sets and increments (there the code adds the increment to the set value: witness
+`Witness.C15.set_before_increment`, finding `counter-set-before-increment`). -/
+theorem update_order_partial (fr : Spec.Frames) (o : Ops) (n : String)
+    (h : (namesOf o.set).contains n = false ∨ (namesOf (Spec.effIncr o)).contains n = false) :
+    Spec.stack (Spec.update fr o) n = Spec.stack (Spec.updateCss fr o) n := by
+  rw [stack_of_column, stack_of_column]
+  congr 1
+  have hupd : Spec.update fr o =
+      Spec.foldPairs (fun s k v => Spec.touch (fun t => t + v) s k) (Spec.effIncr o)
+        (Spec.foldPairs (fun s k v => Spec.touch (fun _ => v) s k) o.set (Spec.foldPairs Spec.reset o.reset fr)) := by
+    unfold Spec.update Spec.effIncr; rfl
+  rw [hupd]
+  unfold Spec.updateCss
+  simp only
+  rcases h with h | h
+  · -- `n` is not set: the set fold does not touch its column, before or after the increments
+    rw [column_fold n _ (fun fr m v hne => column_touch _ n m fr hne) o.set _ h]
+    exact column_fold_congr n (fun v t => t + v) _ _ _
+      (column_fold n _ (fun fr m v hne => column_touch _ n m fr hne) o.set _ h)
+  · -- `n` is not incremented
+    rw [column_fold n _ (fun fr m v hne => column_touch _ n m fr hne) (Spec.effIncr o) _ h]
+    exact (column_fold_congr n (fun v _ => v) _ _ _
+      (column_fold n _ (fun fr m v hne => column_touch _ n m fr hne) (Spec.effIncr o) _ h)).symm
+
 private theorem quiet_pseudo (n : String) (cs : Styles) (targets : Targets) (kind : String) (p : Option Pseudo)
     (fr : Spec.Frames) (h : pseudoQuiet n p = true) :
     ExAll (fun x => column n x.2 = column n fr) (pseudoRun Spec.machine cs targets kind p fr) := by
@@ -3053,5 +3148,12 @@ private def tocStep : Nat → Nat × PassObs
   | n => (n + 1, ⟨3, [⟨false, false⟩, ⟨false, false⟩]⟩)
 example : (layoutLoop tocStep 8 0).converged = true ∧ (layoutLoop tocStep 8 0).passes = 3 := by decide
 end Examples
+
+/-! `update_order_partial`: hypothesis satisfiable (different counters), and the excluded case differs -/
+example : Spec.stack (Spec.update Spec.init ⟨.other, [("c", 3)], [("c", 5)], some [("d", 1)]⟩) "c" =
+    Spec.stack (Spec.updateCss Spec.init ⟨.other, [("c", 3)], [("c", 5)], some [("d", 1)]⟩) "c" :=
+  update_order_partial _ _ "c" (Or.inr (by decide))
+example : Spec.stack (Spec.update Spec.init ⟨.other, [], [("c", 5)], some [("c", 1)]⟩) "c" = [6] ∧
+    Spec.stack (Spec.updateCss Spec.init ⟨.other, [], [("c", 5)], some [("c", 1)]⟩) "c" = [5] := by decide
 
 end Wp.C15
